@@ -452,6 +452,9 @@ fn width_run(prop: &str, run: usize, seed: u64) -> Vec<J> {
         let lit = if *v >= 0 { Entry::Num(*v) } else { Entry::Expr(e.clone()) };
         prog.push(row(vec![lit.clone(); n]));
         prog.push(row(vec![Entry::Expr(e.clone()); n]));
+        // a prefix operator directly on a literal (the value of `!k` is 0 or 1, of `~k` every bit flipped, whatever the width)
+        let k = Expr::Num(v.wrapping_abs().max(0));
+        prog.push(row((0..n).map(|c| Entry::Expr(Expr::un(["!", "~", "-"][(c + run) % 3], if c % 2 == 0 { k.clone() } else { Expr::Num((c / 2) as i64) }))).collect()));
         // through a variable (no arithmetic here: overflow behaviour is C08's business)
         prog.push(Stmt::Let { name: "t".into(), e: e.clone() });
         let mut es = vec![Entry::Expr(Expr::id("t")); n];
